@@ -7,6 +7,10 @@
      kind 3  parse integer lists  row = text           out = [v1;..;vk]
      kind 4  parse floats         row = text           out = [bits of the double]
      kind 5  format floats        row = [bits]         out = bits of the re-parsed double :: text
+     kind 6  digit matrix         row 0 = the buffer, row i = [start; end]   out = the matrix row
+             (move_intervals_to_digit_array(data, starts, ends, '0') on the selected intervals)
+   k_pow is the platform's 10.**k observed in the same process, as (k, bit pattern), for every k the float
+   cases of this case need (assumption E3 of Model/C18.v).
    spec_ok : every output row satisfies the property for ITS input row alone (this is both the
              correctness and the row-independence clause), judged with the Spec definitions only;
    model_ok: every run returned what the model of the code returns for that sub-batch
@@ -25,10 +29,11 @@ Definition parse_floats : list (list Z) -> option (list (bool * Z * Z * Z)) := s
         before it the code was parse_split_ints_pinned ---- *)
 Definition parse_lists : Z -> list (list Z) -> option (list (list Z)) := parse_split_ints.
 
+Definition float_plus : bool := true.     (* which variant of the float parser the double model follows *)
 Definition parse_tol : Z := 8.     (* float parsing tolerance in half-ulps: 4 ulp *)
 
 Definition run := (Z * list Z * option (list (list Z)))%type.   (* route, indices, outputs (None = exception) *)
-Record case := { k_kind : Z; k_rows : list (list Z); k_runs : list run }.
+Record case := { k_kind : Z; k_rows : list (list Z); k_runs : list run; k_pow : list (Z * Z) }.
 
 Definition select (rows : list (list Z)) (idx : list Z) : list (list Z) :=
   map (fun i => nth (Z.to_nat i) rows []) idx.
@@ -43,6 +48,12 @@ Definition opt_eqb {A} (eqb : A -> A -> bool) (a b : option A) : bool :=
   match a, b with Some x, Some y => eqb x y | None, None => true | _, _ => false end.
 
 (* ---------- the property, per row ---------- *)
+(* plain decimal texts whose digits form an integer below 2^53, at most 22 digits after the point, at most 23
+   characters: one correctly rounded division (C18_float_short_decimal_partial) — required to be the NEAREST double *)
+Definition short_class (t : list Z) : bool :=
+  negb (has_e t) && (len t <=? 23)
+  && match float_text_value t with Some (_, N, E) => (N <? 2 ^ 53) && (-22 <=? E) | None => false end.
+Definition tol_of (t : list Z) : Z := if short_class t then 1 else 8.     (* half-ulps: 1/2 ulp, else 4 ulp *)
 Definition float_ok (h : Z) (t : list Z) (bits : Z) : bool :=
   match float_text_value t with
   | Some (neg, N, E) => let '(num, den) := frac_of neg N E in within_half_ulps h bits neg num den
@@ -63,27 +74,59 @@ Definition row_spec (kind : Z) (row out : list Z) : bool :=
     | _ => forall2b (fun piece v => opt_eqb Z.eqb (text_value piece) (Some v)) (split_on 44 row) out
     end
   else if kind =? 4 then
-    match out with [bits] => float_ok parse_tol row bits | _ => false end
+    match out with [bits] => float_ok (tol_of row) row bits | _ => false end
   else if kind =? 5 then
     match row, out with
     | [x], b :: t => float_ok 1 t x && (b =? x)
     | _, _ => false
     end
   else false.
+(* kind 6: every row is its field, left-padded with '0' to the widest field of the sub-batch *)
+Definition iv_of (r : list Z) : Z * Z := (nthZ r 0, nthZ r 1).
+Definition lpad (w : Z) (t : list Z) : list Z := repeat 48 (Z.to_nat (w - len t)) ++ t.
+Definition matrix_spec (data : list Z) (ivs : list (Z * Z)) (outs : list (list Z)) : bool :=
+  let fields := map (fun iv => slice (fst iv) (snd iv) data) ivs in
+  let w := fold_right Z.max 0 (map len fields) in
+  zll_eqb outs (map (lpad w) fields).
 Definition run_spec (c : case) (r : run) : bool :=
   let '(route, idx, out) := r in
   match out with
   | None => false
-  | Some outs => forall2b (row_spec (k_kind c)) (select (k_rows c) idx) outs
+  | Some outs =>
+      if k_kind c =? 6 then matrix_spec (nth 0 (k_rows c) []) (map iv_of (select (k_rows c) idx)) outs
+      else forall2b (row_spec (k_kind c)) (select (k_rows c) idx) outs
   end.
-Definition spec_ok (c : case) : bool := forallb (run_spec c) (k_runs c).
+(* row independence, observed directly: whatever sub-batch and order a row was converted in, the result for it is
+   the same byte for byte / bit for bit (kinds 0-5; for kind 6 the padding width legitimately follows the sub-batch) *)
+Definition run_pairs (r : run) : list (Z * list Z) :=
+  let '(_, idx, out) := r in match out with Some outs => combine idx outs | None => [] end.
+Definition consistent (c : case) : bool :=
+  let pairs := flat_map run_pairs (k_runs c) in
+  (k_kind c =? 6)
+  || forallb (fun p => match find (fun q => fst q =? fst p) pairs with
+                       | Some q => zlist_eqb (snd q) (snd p)
+                       | None => true
+                       end) pairs.
+Definition spec_ok (c : case) : bool := forallb (run_spec c) (k_runs c) && consistent c.
 
 (* ---------- the model, per run ---------- *)
 Definition float_rows_ok (texts : list (list Z)) (bits : list Z) : bool :=
   match parse_floats texts with
   | None => false
-  | Some rs => forall2b (fun r b => let '(ng, _, _, _) := r in let '(num, den) := model_frac r in
-                                    within_half_ulps parse_tol b ng num den) rs bits
+  | Some rs => forall2b (fun tr b => let '(ng, _, _, _) := snd tr in let '(num, den) := model_frac (snd tr) in
+                                     within_half_ulps (tol_of (fst tr)) b ng num den) (combine texts rs) bits
+  end.
+(* the observed power table is plausible: every entry within one ulp of 10^k, exact for 0 <= k <= 22 *)
+Definition pow_entry_ok (kv : Z * Z) : bool :=
+  let '(k, bits) := kv in
+  let '(num, den) := frac_of false 1 k in
+  within_half_ulps (if (0 <=? k) && (k <=? 22) then 0 else 2) bits false num den.
+Definition pow_table_ok (c : case) : bool := forallb pow_entry_ok (k_pow c).
+(* bit-for-bit agreement with the modelled double evaluation *)
+Definition float_bits_ok (c : case) (texts : list (list Z)) (bits : list Z) : bool :=
+  match str_to_float_double (pow_of_table (k_pow c)) float_plus texts with
+  | Some rs => forall2b dbl_matches bits rs
+  | None => false
   end.
 Definition run_model (c : case) (r : run) : bool :=
   let '(route, idx, out) := r in
@@ -92,18 +135,20 @@ Definition run_model (c : case) (r : run) : bool :=
   if kind =? 0 then opt_eqb zll_eqb out (Some (fmt_ints (map hd0 sel)))
   else if kind =? 1 then
     opt_eqb zll_eqb out
-      (option_map (map (fun v => [v])) (if route =? 1 then int_column sel else str_to_int_rows sel))
+      (option_map (map (fun v => [v])) (if (route =? 1) || (route =? 4) then int_column sel else str_to_int_rows sel))
   else if kind =? 2 then opt_eqb zll_eqb out (Some (fmt_int_lists 44 sel))
   else if kind =? 3 then opt_eqb zll_eqb out (parse_lists 44 sel)
   else if kind =? 4 then
     match out with
-    | Some outs => float_rows_ok sel (map hd0 outs)
+    | Some outs => forallb (fun o => len o =? 1) outs && float_rows_ok sel (map hd0 outs) && float_bits_ok c sel (map hd0 outs)
     | None => match parse_floats sel with None => true | Some _ => false end
     end
   else if kind =? 5 then
     match out with
-    | Some outs => float_rows_ok (map (@tl Z) outs) (map hd0 outs)
+    | Some outs => float_rows_ok (map (@tl Z) outs) (map hd0 outs) && float_bits_ok c (map (@tl Z) outs) (map hd0 outs)
     | None => false
     end
+  else if kind =? 6 then
+    opt_eqb zll_eqb out (Some (digit_matrix (nth 0 (k_rows c) []) (map iv_of sel) 48))
   else false.
-Definition model_ok (c : case) : bool := forallb (run_model c) (k_runs c).
+Definition model_ok (c : case) : bool := forallb (run_model c) (k_runs c) && pow_table_ok c.
